@@ -1,7 +1,27 @@
-//! Scenario crate `scn-lp` (chain-level simulation on the chainsim runtime).
+//! Scenario crate `scn-lp` (chain-level simulation on the chainsim runtime): C38 LP staking.
 
-pub const PROPERTIES: &[&str] = &[];
+pub mod lpdeploy;
+pub mod refm;
+pub mod scenario;
+pub mod ser;
 
-pub fn registry(_property: &str) -> Option<simcore::CheckSpec> {
-    None
+use simcore::{CheckSpec, Part};
+
+pub const PROPERTIES: &[&str] = &["C38"];
+
+pub fn registry(property: &str) -> Option<CheckSpec> {
+    match property {
+        "C38" => Some(CheckSpec {
+            property: "C38",
+            level: "exploration",
+            parts: vec![Part::new(scenario::LpStaking, 20_000, 400_000)],
+            assumptions: vec![
+                "the private reward functions are observed through the GT minted by claim_gt / unstake_lp; the reference allows every intermediate quantity (average APY, per-second rate, two products) to be rounded either down or up".into(),
+                "GM (market token) staking only; stake_glv differs from stake_gm only in the pricing CPI and is not exercised".into(),
+                "for a disabled controller the accrual window ends at the disabling time, as the program documents".into(),
+                "a full exit is required to succeed unless the accrual window is negative (clock regression) or the GT mint at the store would overflow its cost-growth loop".into(),
+            ],
+        }),
+        _ => None,
+    }
 }
